@@ -106,6 +106,7 @@ def main():
     a = ap.parse_args()
     rng = np.random.default_rng(2000 + a.seed)
     viol, n = [], 0
+    distinct, samples = set(), []
 
     def bad(clause, key, **kw):
         if sum(1 for v in viol if v["clause"] == clause) < 3:
@@ -132,6 +133,9 @@ def main():
                 b, _, _ = mk(D, user)
             except Exception as ex:  # noqa: BLE001 - a value the constructor rejects for its type is not an options-loader matter
                 continue
+            distinct.add((D, k, repr(v)))
+            if len(samples) < 4:
+                samples.append({"D": D, "override": {k: v}, "constructed_value": b.options[k], "default_for_this_D": base[k]})
             if user != given:
                 bad("C20.caller_options_dict_not_mutated", "single-D%d-%s" % (D, k))
             if not same(b.options[k], v):
@@ -163,6 +167,9 @@ def main():
         except Exception:  # noqa: BLE001
             continue
         exp = expected(D, user)
+        distinct.add((D, tuple(sorted((k, repr(v)) for k, v in user.items()))))
+        if len(samples) < 7:
+            samples.append({"D": D, "overrides": user})
         for k2 in names:
             if not same(b.options[k2], exp[k2]) and not (k2 == "stobads" and b.options[k2] is False):
                 bad("C20.user_value_survives_exactly" if k2 in user else "C20.dependent_defaults_derived_from_user_value", "subset-%d-%s" % (i, k2), overrides=user, got=b.options[k2], expected=exp[k2])
@@ -177,6 +184,9 @@ def main():
             b, arrs, keep = mk(D, u_in)
             objs[j] = (b, snapshot(b.options), arrs, keep, u_in, dict(u), expected(D, u))
         run_order = list(rng.permutation(len(specs)))
+        distinct.add(("order", tuple(int(x) for x in order), tuple(int(x) for x in run_order)))
+        if len(samples) < 9:
+            samples.append({"construct_order": [int(x) for x in order], "run_order": [int(x) for x in run_order], "instances": [{"D": d_, "overrides": u_} for d_, u_ in specs]})
         for j in run_order:
             b = objs[j][0]
             b.options["display"] = "off"
@@ -200,7 +210,10 @@ def main():
                 bad("C20.caller_options_dict_not_mutated", "order-%d-inst%d" % (i, j), got=u_in, given=u)
             if any(not np.array_equal(x, y) for x, y in zip(arrs, keep)):
                 bad("C20.caller_arrays_not_mutated", "order-%d-inst%d" % (i, j))
-    print(json.dumps({"status": "violation" if viol else "ok", "violations": viol, "evaluations": n, "runs": n,
+    print(json.dumps({"status": "violation" if viol else "ok", "violations": viol, "evaluations": n, "runs": n, "distinct_nontrivial": len(distinct),
+                      "rule": "cases: (D, single override) for every option name with a scalar default, (D, subset of 2-4 overrides), (construction order, run order) of 4 instances; "
+                              "a case counts as non-trivial when the overriding value differs from the default and the constructor accepted it; distinct by (D, names, values) / by the two orders",
+                      "samples": json.loads(json.dumps(samples, default=str)),
                       "bound": "all %d option names x D=1..%d (single overrides), %d random subsets of 2-4 overrides, %d construct/run orders of 4 instances" % (len(names), a.dims, a.pairs, a.orders)}))
 
 
